@@ -8,6 +8,7 @@
 package thrnet
 
 import (
+	"sync"
 	"bytes"
 	"encoding/hex"
 	"fmt"
@@ -262,6 +263,13 @@ func (w *world) run() {
 		}
 		w.pool = append(w.pool, thrmodel.Share{Bytes: s, Kind: "true", TrueOf: i})
 	}
+	// once per process: the harness' own E1 arithmetic agrees with the library on a genuine
+	// share (decompress / re-compress bit-exact, order r, torsion orders)
+	e1CheckOnce.Do(func() { e1CheckErr = curve.SelfCheckE1(w.pool[0].Bytes) })
+	if e1CheckErr != nil {
+		w.viol("HARNESS", "selfcheck", "selfcheck.e1", "harness E1 arithmetic disagrees with the library: %v", e1CheckErr)
+		return
+	}
 	// the unique group signature, from the first t+1 shares
 	var first []crypto.Signature
 	var signers []int
@@ -345,13 +353,21 @@ func (w *world) run() {
 		case "negated":
 			b = append([]byte(nil), w.pool[from].Bytes...)
 			b[0] ^= 0x20
+		case "torsion":
+			// genuine share + point of small prime order of the cofactor part of E1(Fp): on the
+			// curve, outside G1, and it still satisfies the signer's pairing equation
+			var err error
+			b, err = curve.G1PlusTorsion(w.pool[from].Bytes, rnd.Intn(len(curve.SmallPrimesE1)), int64(1+rnd.Intn(2)))
+			if err != nil {
+				b = curve.G1NonSubgroup(rnd)
+			}
 		default:
 			b = rnd.Bytes(48)
 		}
 		w.pool = append(w.pool, thrmodel.Share{Bytes: b, Kind: kind, TrueOf: trueOf})
 		return len(w.pool) - 1
 	}
-	badKinds := []string{"wrongsigner", "othermsg", "notG1", "offcurve", "xlarge", "badheader", "infinity", "len0", "len47", "len49", "negated", "random", "len96", "pair47_49", "pair0_96"}
+	badKinds := []string{"wrongsigner", "othermsg", "notG1", "offcurve", "xlarge", "badheader", "infinity", "len0", "len47", "len49", "negated", "random", "len96", "pair47_49", "pair0_96", "torsion"}
 	w.env.Pool = nil // set after the pool is complete
 	if c.Bool(1, 3, "onekind") {
 		// swarm: only one kind of bad share in this run (so that e.g. ALL retained shares can be empty)
@@ -625,6 +641,11 @@ func (w *world) run() {
 }
 
 // undecodable lists the bad-share kinds that are not encodings of any point of E1.
+var (
+	e1CheckOnce sync.Once
+	e1CheckErr  error
+)
+
 var undecodable = map[string]bool{"offcurve": true, "xlarge": true, "badheader": true, "len0": true, "len47": true, "len49": true,
 	"len96": true, "pair47_49": true, "pair0_96": true}
 
